@@ -419,3 +419,17 @@ def frame_orientation_obligations(model, rep, fn, clause, rule="ORIENT"):
         rep.ob(rule, fn.anchor, "a result table is built from a sequence of columns (or states orient=), not from one 2-D array whose orientation polars infers "
                "from the run-time shape", ok, f"`{norm_src(c)[:80]}`: a single array ({top}) without orient=", node=c, fn=fn, clause=clause)
     return n
+
+
+class ClauseView:
+    """View of a report that files every obligation of a shared clause under the borrowing property's own clause name."""
+
+    def __init__(self, rep, clause):
+        self._rep, self._clause = rep, clause
+
+    def ob(self, *a, **kw):
+        kw["clause"] = self._clause
+        return self._rep.ob(*a, **kw)
+
+    def __getattr__(self, k):
+        return getattr(self._rep, k)
